@@ -207,6 +207,18 @@ func (c *Ctx) c09Keys(identity bool) {
 				c.c09Native("case-one", string(t), identity, true)
 			}
 		}
+		// one LETTER in the other case, every occurrence of it
+		for _, ch := range b32charset {
+			if ch >= 'a' && ch <= 'z' && strings.ContainsRune(strings.ToLower(s), ch) {
+				t := []byte(s)
+				for i := range t {
+					if t[i] == byte(ch) || t[i] == byte(ch)-32 {
+						t[i] = swapCase(string(t[i]))[0]
+					}
+				}
+				c.c09Native("case-letter", string(t), identity, true)
+			}
+		}
 		c.c09Native("len-1", s[:len(s)-1], identity, true)
 		c.c09Native("len+1", s+"q", identity, true)
 		c.c09Native("lead-space", " "+s, identity, true)
